@@ -2,6 +2,8 @@ import PhysisModel.Proofs.C18Hdr
 import PhysisModel.Proofs.C18Fmt
 import PhysisModel.Proofs.C18Dat
 import PhysisModel.Proofs.C18Arc
+import PhysisModel.Proofs.C18Mtrl
+import PhysisModel.Proofs.C18Shpk
 /-!
 # C18 — damaged game data is rejected without crashing
 
@@ -154,5 +156,54 @@ example : (C18Hdr.uld [0x75, 0x6c, 0x64, 0x68, 0x30, 0x31, 0x30, 0x30, 1, 0, 0, 
   decide
 example : (C18Hdr.uld [0x75, 0x6c, 0x64, 0x68, 0x30, 0x31, 0x30, 0x30, 1, 0, 0, 0, 2, 0, 0]).isOk = false := by
   decide
+
+/-! ## part `mat`: `Material::from_existing`, `ShaderPackage::from_existing`, `ShaderPackage::find_node`
+
+The models (`Model/C18Mtrl.lean`, `Model/C18Shpk.lean`) mirror the code with `fixes/C18-30…35`
+applied; the `…Pinned` variants keep the panicking / over-reserving operations of the pinned commit
+and are used only by the `…_pinned_witness` theorems below. -/
+
+theorem c18_mtrl_total (b : Bytes) : ¬ faults (C18Mtrl.mtrl b) := (C18Mtrl.mtrl_good b).1
+theorem c18_mtrl_alloc (b : Bytes) : (C18Mtrl.mtrl b).peak ≤ 64 * b.length + 16777216 :=
+  (C18Mtrl.mtrl_good b).2
+
+/-- pinned commit, `mtrl.rs:429`: `x[0..4]` on an empty additional-data block (16 zero bytes) -/
+theorem c18_mtrl_pinned_witness_flags : faults (C18Mtrl.mtrlPinned [0, 0, 0, 0, 0, 0, 0, 0, 0, 0, 0, 0, 0, 0, 0, 0]) :=
+  faults_of_isFault (by decide)
+/-- pinned commit, `mtrl.rs:519`: `strings[0]` on an empty string table -/
+theorem c18_mtrl_pinned_witness_strings : faults (C18Mtrl.mtrlPinned [0, 0, 0, 0, 0, 0, 0, 0, 0, 0, 0, 0, 0, 0, 0, 4, 0, 0, 0, 0, 0, 0, 0, 0, 0, 0, 0, 0, 0, 0, 0, 0]) :=
+  faults_of_isFault (by decide)
+/-- pinned commit, `mtrl.rs:533`: a one-float constant with no shader values -/
+theorem c18_mtrl_pinned_witness_constant : faults (C18Mtrl.mtrlPinned [0, 0, 0, 0, 0, 0, 0, 0, 1, 0, 0, 0, 0, 0, 0, 4, 0, 0, 0, 0, 0, 0, 0, 0, 0, 1, 0, 0, 0, 0, 0, 0, 0, 0, 0, 0, 0, 0, 0, 4, 0]) :=
+  faults_of_isFault (by decide)
+
+theorem c18_shpk_total (b : Bytes) : ¬ faults (C18Shpk.shpk b) := (C18Shpk.shpk_good b).1
+theorem c18_shpk_alloc (b : Bytes) : (C18Shpk.shpk b).peak ≤ 64 * b.length + 16777216 :=
+  (C18Shpk.shpk_good b).2
+
+/-- `from_existing(b).and_then(|p| p.find_node(sel))`, every selector -/
+theorem c18_shpknode_total (b : Bytes) (sel : Nat) : ¬ faults (C18Shpk.shpknode b sel) :=
+  (C18Shpk.shpknode_good b sel).1
+theorem c18_shpknode_alloc (b : Bytes) (sel : Nat) :
+    (C18Shpk.shpknode b sel).peak ≤ 64 * b.length + 16777216 :=
+  (C18Shpk.shpknode_good b sel).2
+
+/-- pinned commit, `shpk.rs:147`: `from_utf8(..).unwrap()` on the format tag `FF 00 00 00` -/
+theorem c18_shpk_pinned_witness_utf8 : faults (C18Shpk.shpkPinned [83, 104, 80, 107, 0, 0, 0, 0, 255, 0, 0, 0]) :=
+  faults_of_isFault (by decide)
+/-- pinned commit, `Shader.bytecode`: one pixel shader with `data_size = 0xFFFFFFFF` in an 88-byte
+file makes binrw reserve 4 GiB before reading -/
+theorem c18_shpk_pinned_witness_alloc :
+    ¬ (C18Shpk.shpkPinned [83, 104, 80, 107, 0, 0, 0, 0, 68, 88, 49, 49, 0, 0, 0, 0, 0, 0, 0, 0, 0, 0, 0, 0, 0, 0, 0, 0, 1, 0, 0, 0, 0, 0, 0, 0, 0, 0, 0, 0, 0, 0, 0, 0, 0, 0, 0, 0, 0, 0, 0, 0, 0, 0, 0, 0, 0, 0, 0, 0, 0, 0, 0, 0, 0, 0, 0, 0, 0, 0, 0, 0, 0, 0, 0, 0, 255, 255, 255, 255, 0, 0, 0, 0, 0, 0, 0, 0]).peak ≤ 64 * 88 + 16777216 := by
+  decide
+/-- pinned commit, `shpk.rs:238`: an alias to node 0 in a package without nodes -/
+theorem c18_shpknode_pinned_witness : faults (C18Shpk.shpknodePinned [83, 104, 80, 107, 0, 0, 0, 0, 68, 88, 49, 49, 0, 0, 0, 0, 0, 0, 0, 0, 0, 0, 0, 0, 0, 0, 0, 0, 0, 0, 0, 0, 0, 0, 0, 0, 0, 0, 0, 0, 0, 0, 0, 0, 0, 0, 0, 0, 0, 0, 0, 0, 0, 0, 0, 0, 0, 0, 0, 0, 0, 0, 0, 0, 0, 0, 0, 0, 1, 0, 0, 0, 0, 0, 0, 0, 0, 0, 0, 0, 0, 0, 0, 0, 0, 0, 0, 0] 0) :=
+  faults_of_isFault (by decide)
+
+/-- non-vacuity: the smallest well-formed material and shader package parse -/
+example : (C18Mtrl.mtrl [0, 0, 0, 0, 0, 0, 0, 0, 1, 0, 0, 0, 0, 0, 0, 4, 0, 0, 0, 0, 0, 0, 0, 0, 0, 0, 0, 0, 0, 0, 0, 0, 0]).isOk = true := by decide
+example : (C18Shpk.shpk [83, 104, 80, 107, 0, 0, 0, 0, 68, 88, 49, 49, 0, 0, 0, 0, 0, 0, 0, 0, 0, 0, 0, 0, 0, 0, 0, 0, 0, 0, 0, 0, 0, 0, 0, 0, 0, 0, 0, 0, 0, 0, 0, 0, 0, 0, 0, 0, 0, 0, 0, 0, 0, 0, 0, 0, 0, 0, 0, 0, 0, 0, 0, 0, 0, 0, 0, 0, 0, 0, 0, 0, 0, 0, 0, 0, 0, 0, 0, 0]).isOk = true := by decide
+example : (C18Shpk.shpknode [83, 104, 80, 107, 0, 0, 0, 0, 68, 88, 49, 49, 0, 0, 0, 0, 0, 0, 0, 0, 0, 0, 0, 0, 0, 0, 0, 0, 0, 0, 0, 0, 0, 0, 0, 0, 0, 0, 0, 0, 0, 0, 0, 0, 0, 0, 0, 0, 0, 0, 0, 0, 0, 0, 0, 0, 0, 0, 0, 0, 0, 0, 0, 0, 0, 0, 0, 0, 1, 0, 0, 0, 0, 0, 0, 0, 0, 0, 0, 0, 0, 0, 0, 0, 0, 0, 0, 0] 0).isOk = false := by decide
+
 
 end Physis.C18
